@@ -210,6 +210,10 @@ class ErrnoLemma:
 
 class SeqRule:
     max_depth = 4
+    # a callee explored from the same entry state (parameter classes, errno fact, user state) at the same depth under
+    # the same callers has the same exits: rules whose hooks are functions of their arguments (no per-visit counters
+    # that a floor depends on) may have the exploration remembered
+    memo_calls = False
 
     def __init__(self, prog):
         self.prog = prog
@@ -571,7 +575,16 @@ def _elem(rule, fn, st, nid, depth, budget, stack, exits, top):
                     if c is not None:
                         vals.add((vkey(p["name"], p.get("did")), c))
                 s_call = St(frozenset(vals), st.errno, st.user)
-                sub = _explore(rule, d, s_call, depth + 1, False, budget, stack + (fn,))
+                memo = getattr(rule, "_memo", None) if getattr(rule, "memo_calls", False) else None
+                if memo is None and getattr(rule, "memo_calls", False):
+                    memo = rule._memo = {}
+                mk = (d, s_call, depth, frozenset(stack)) if memo is not None else None
+                if memo is not None and mk in memo:
+                    sub = memo[mk]
+                else:
+                    sub = _explore(rule, d, s_call, depth + 1, False, budget, stack + (fn,))
+                    if memo is not None:
+                        memo[mk] = sub
                 for s_out, rc in sub:
                     s2 = St(st.vals, s_out.errno, s_out.user)
                     s2 = s2.set(("call", nid), rc)
